@@ -124,6 +124,7 @@ package linter
 // (constructors read the prototype's map, front-ends write parameter values through the copies).
 //@ func getCheckersInfo
 //@   prop C14 C17
+//@   total_order the list is sorted by checker name, and names are the keys of the registry it was built from: no two elements compare equal
 //@   nosafety prototypes hold non-nil infos (addChecker)
 //@   loop 1 body @appends-one len(infoList) == old(len(infoList)) + 1 && infoList[len(infoList) - 1] != nil
 //@   loop 1 body @copy-shares-params infoList[len(infoList) - 1].Params == proto.info.Params
